@@ -62,6 +62,9 @@ pub struct Knobs {
     pub max_committed_size_per_ready: i64,
     pub max_apply_unpersisted_log_limit: u64,
     pub disable_proposal_forwarding: bool,
+    /// ReadOnlyOption::LeaseBased instead of Safe (needs check_quorum)
+    #[serde(default)]
+    pub lease_read: bool,
 }
 
 impl Default for Knobs {
@@ -80,6 +83,7 @@ impl Default for Knobs {
             max_committed_size_per_ready: -1,
             max_apply_unpersisted_log_limit: 0,
             disable_proposal_forwarding: false,
+            lease_read: false,
         }
     }
 }
@@ -420,6 +424,7 @@ impl Cluster {
             max_committed_size_per_ready: unlim(k.max_committed_size_per_ready),
             max_apply_unpersisted_log_limit: k.max_apply_unpersisted_log_limit,
             disable_proposal_forwarding: k.disable_proposal_forwarding,
+            read_only_option: if k.lease_read { raft::ReadOnlyOption::LeaseBased } else { raft::ReadOnlyOption::Safe },
             ..Default::default()
         }
     }
